@@ -16,6 +16,7 @@ type inlParam struct {
 	drop  bool       // unnamed or unused, argument free of effects
 	name  string     // name of the binding when bound
 	typ   types.Type // type of the argument expression (nil: unknown)
+	ptyp  types.Type // the parameter's type at this call when the helper is generic (instantiated), else nil
 }
 
 const (
@@ -93,8 +94,29 @@ func (c *inlCtx) newBuilder(call *ast.CallExpr, f *Func) *builder {
 		c.skip(call, f, "argument list does not match the parameters one to one")
 		return nil
 	}
+	var instSig *types.Signature
+	if sig.TypeParams().Len() > 0 {
+		var fid *ast.Ident
+		switch fx := unparen(call.Fun).(type) {
+		case *ast.Ident:
+			fid = fx
+		case *ast.SelectorExpr:
+			fid = fx.Sel
+		case *ast.IndexExpr:
+			fid = identOf(fx.X)
+		}
+		if fid != nil {
+			if inst, ok := info.Instances[fid]; ok {
+				instSig, _ = inst.Type.(*types.Signature)
+			}
+		}
+	}
 	for i := 0; i < sig.Params().Len(); i++ {
-		b.params = append(b.params, &inlParam{obj: sig.Params().At(i), arg: call.Args[i], typ: c.typeOf(call.Args[i])})
+		p := &inlParam{obj: sig.Params().At(i), arg: call.Args[i], typ: c.typeOf(call.Args[i])}
+		if instSig != nil && i < instSig.Params().Len() {
+			p.ptyp = instSig.Params().At(i).Type()
+		}
+		b.params = append(b.params, p)
 	}
 	// which parameters are written, or have their address taken, in the helper
 	written := map[types.Object]bool{}
@@ -227,7 +249,11 @@ func (c *inlCtx) newBuilder(call *ast.CallExpr, f *Func) *builder {
 			continue
 		}
 		p.name = nm
-		if simple && !written[p.obj] && p.typ != nil && !types.Identical(p.typ, p.obj.Type()) {
+		declT := p.obj.Type()
+		if p.ptyp != nil {
+			declT = p.ptyp
+		}
+		if simple && !written[p.obj] && p.typ != nil && !types.Identical(p.typ, declT) {
 			// an untyped constant or nil: substitute it converted to the parameter's type (T(nil), float64(2))
 			if bt, ok := p.typ.(*types.Basic); ok && bt.Info()&types.IsUntyped != 0 {
 				if te := typeExpr(p.obj.Type(), c.pkg.Types, c.file, c.info); te != nil {
@@ -241,7 +267,7 @@ func (c *inlCtx) newBuilder(call *ast.CallExpr, f *Func) *builder {
 				}
 			}
 		}
-		if !simple || written[p.obj] || p.typ == nil || !types.Identical(p.typ, p.obj.Type()) {
+		if !simple || written[p.obj] || p.typ == nil || !types.Identical(p.typ, declT) {
 			continue
 		}
 		// an argument that reads memory the helper may write must be evaluated once, at the call
@@ -250,6 +276,14 @@ func (c *inlCtx) newBuilder(call *ast.CallExpr, f *Func) *builder {
 			switch x := n.(type) {
 			case *ast.SelectorExpr:
 				if _, isPkg := info.Uses[identOfRoot(x)].(*types.PkgName); isPkg {
+					return false
+				}
+				// a method value x.m of a stable variable x: the receiver is the same whenever it is read
+				if sel, ok := info.Selections[x]; ok && sel.Kind() == types.MethodVal {
+					if rid, ok := unparen(x.X).(*ast.Ident); ok && c.stable(rid) {
+						return false
+					}
+					stableArg = false
 					return false
 				}
 				if fieldsAssigned[x.Sel.Name] {
@@ -363,7 +397,7 @@ func (b *builder) cloneBody() *ast.BlockStmt {
 		identNames(p.arg, taken)
 	}
 	calleeNames := map[string]bool{}
-	identNames(b.f.Decl, calleeNames)
+	identNames(b.f.Node(), calleeNames)
 	freshFor := func(nm string) string {
 		for {
 			cand := nm + "_i" + strconv.Itoa(c.n.fresh())
@@ -439,6 +473,18 @@ func (b *builder) cloneBody() *ast.BlockStmt {
 		if nm, ok := b.rename[o]; ok {
 			id.Name = nm
 			return id
+		}
+		// a variable the closure captures must be the one the name denotes at the call
+		if b.f.Lit != nil && c.useOf(id) != nil {
+			if lv, ok := o.(*types.Var); ok && !lv.IsField() && lv.Parent() != c.pkg.Types.Scope() && (lv.Pos() < b.f.Lit.Pos() || lv.Pos() > b.f.Lit.End()) {
+				inner := c.pkg.Types.Scope().Innermost(b.call.Pos())
+				if inner == nil {
+					b.fail = "no scope at the call"
+				} else if _, got := inner.LookupParent(id.Name, b.call.Pos()); got != o {
+					b.fail = "the captured variable " + id.Name + " is shadowed at the call"
+				}
+				return e
+			}
 		}
 		if c.useOf(id) != nil && !c.resolvesSame(id.Name, o, b.call.Pos()) {
 			b.fail = "the name " + id.Name + " means something else at the call"
@@ -675,11 +721,15 @@ func (b *builder) bindings() []ast.Stmt {
 			continue
 		}
 		at := p.typ
-		if at != nil && types.Identical(at, p.obj.Type()) {
+		declT := p.obj.Type()
+		if p.ptyp != nil {
+			declT = p.ptyp
+		}
+		if at != nil && types.Identical(at, declT) {
 			out = append(out, &ast.AssignStmt{Lhs: []ast.Expr{ast.NewIdent(nm)}, Tok: token.DEFINE, Rhs: []ast.Expr{p.arg}, TokPos: b.call.Pos()})
 			continue
 		}
-		te := typeExpr(p.obj.Type(), c.pkg.Types, c.file, c.info)
+		te := typeExpr(declT, c.pkg.Types, c.file, c.info)
 		if te == nil {
 			b.fail = "the type of parameter " + p.name + " cannot be written at the call"
 			return nil
